@@ -107,13 +107,14 @@ type Prop interface {
 
 // Finding is one entry of known_findings.json.
 type Finding struct {
-	Kind     string `json:"kind"` // finding | fixed
-	Property string `json:"property"`
-	ID       string `json:"id"`
-	Ident    string `json:"ident,omitempty"` // exact Violation.Ident, or prefix when ending in *
-	What     string `json:"what"`
-	Commit   string `json:"commit,omitempty"`
-	Witness  string `json:"witness,omitempty"`
+	Kind     string   `json:"kind"` // finding | fixed
+	Property string   `json:"property"`
+	ID       string   `json:"id"`
+	Ident    string   `json:"ident,omitempty"` // exact Violation.Ident, or prefix when ending in *
+	Idents   []string `json:"idents,omitempty"`
+	What     string   `json:"what"`
+	Commit   string   `json:"commit,omitempty"`
+	Witness  string   `json:"witness,omitempty"`
 }
 
 // LoadFindings reads /verif/known_findings.json.
@@ -138,15 +139,21 @@ func matchFinding(fs []Finding, prop, ident string) *Finding {
 	}
 	for i := range fs {
 		f := &fs[i]
-		if f.Kind != "finding" || f.Property != prop || f.Ident == "" {
+		if f.Kind != "finding" || f.Property != prop {
 			continue
 		}
-		if strings.HasSuffix(f.Ident, "*") {
-			if strings.HasPrefix(ident, strings.TrimSuffix(f.Ident, "*")) {
+		ids := f.Idents
+		if f.Ident != "" {
+			ids = append([]string{f.Ident}, ids...)
+		}
+		for _, id := range ids {
+			if strings.HasSuffix(id, "*") {
+				if strings.HasPrefix(ident, strings.TrimSuffix(id, "*")) {
+					return f
+				}
+			} else if id == ident {
 				return f
 			}
-		} else if f.Ident == ident {
-			return f
 		}
 	}
 	return nil
@@ -587,7 +594,7 @@ func report(p Prop, tier string, seed int64, all []CaseResult, inconclusive []st
 	}
 	for k, m := range sets {
 		cov["distinct_"+k] = len(m)
-		if len(m) <= 40 {
+		if len(m) <= 120 {
 			var vs []string
 			for v := range m {
 				vs = append(vs, v)
